@@ -31,7 +31,7 @@ def any_cfg(cfg): return True
 
 # families -> (generator name, leak_free?)  leak_free: at the end of the case nothing may be alive
 PROPS = {
-    "C01": dict(families=["elem", "copy", "iter_nth", "random"], keys=["out", "ret", "len", "snap"], cfgs=any_cfg,
+    "C01": dict(families=["elem", "copy", "iter_nth", "userlazy", "random"], keys=["out", "ret", "len", "snap"], cfgs=any_cfg,
                 release=False, leak_free=True),
     "C02": dict(families=["range", "range_nth", "random"], keys=["out", "ret", "len", "snap"], cfgs=any_cfg,
                 release=True, leak_free=True),
@@ -48,7 +48,7 @@ PROPS = {
                 release=False, leak_free=False),
     "C07": dict(families=["forget"], keys=["out", "ret", "len", "snap", "ev_user"], cfgs=any_cfg,
                 release=False, leak_free=False),
-    "C09": dict(families=["lazy"], keys=["out", "ret", "len", "snap", "ev_user"], cfgs=any_cfg,
+    "C09": dict(families=["lazy", "userlazy"], keys=["out", "ret", "len", "snap", "ev_user"], cfgs=any_cfg,
                 release=False, leak_free=True),
     "C08": dict(families=["clone", "clonefuse"], keys=["out", "len", "cap", "snap", "ev_clone", "ev_drop", "ev_backend"], cfgs=any_cfg,
                 release=False, leak_free=True),
@@ -131,7 +131,7 @@ def compare_case(pid, spec, cid, cfg, steps, family, mlines, ilines):
         may_leak = any(l.get("out") == "2" and op_word(st) in ("splice", "drain", "clone") for st, l in zip(steps, isteps))
         if spec.get("leak_free"):
             # a step with an armed fuse / lying iterator / forgotten handle may leak (and only leak)
-            may_leak = may_leak or family in ("fuse", "liar", "forget", "lazyfuse", "clonefuse", "dropfuse")
+            may_leak = may_leak or family in ("fuse", "liar", "forget", "lazyfuse", "clonefuse", "dropfuse") or any(st.startswith("fuse=") for st in steps)
             # a leaked iterator / forgotten handle leaks what it still owns (and only leaks)
             may_leak = may_leak or any("forget" in st for st in steps)
             if e.get("live", "-") not in ("-", "0") and not may_leak:
